@@ -2689,6 +2689,14 @@ static int receiveCalendarHashChain(KSI_VerificationContext *info, KSI_Integer *
 			KSI_pushError(ctx,res, NULL);
 			goto cleanup;
 		}
+		/* The aggregation time may be left out of a calendar hash chain when it equals the publication time. */
+		if (startTime == NULL) {
+			res = KSI_CalendarHashChain_getPublicationTime(sig->calendarChain, &startTime);
+			if (res != KSI_OK) {
+				KSI_pushError(ctx,res, NULL);
+				goto cleanup;
+			}
+		}
 	} else {
 		/* Take the first aggregation hash chain, as all of the chain should have the same value for "aggregation time". */
 		res = (KSI_AggregationHashChainList_elementAt(sig->aggregationChainList, 0, &aggr));
